@@ -1803,6 +1803,7 @@ func repoPostInfoHandler(c web.C, w http.ResponseWriter, r *http.Request) {
 		err := datastore.SetRepoAlias(uuid, alias)
 		if err != nil {
 			BadRequest(w, r, "Unable to set alias for repo %q: %v", uuid, err)
+			return
 		}
 	}
 	description, found, err = config.GetString("description")
@@ -1919,6 +1920,7 @@ func postRepoLogHandler(c web.C, w http.ResponseWriter, r *http.Request) {
 	logdata, ok := jsonData["log"]
 	if !ok {
 		BadRequest(w, r, "Could not find 'log' value in POSTed JSON.")
+		return
 	}
 	if err := datastore.AddToRepoLog(uuid, logdata); err != nil {
 		BadRequest(w, r, err)
@@ -1977,6 +1979,7 @@ func postNodeNoteHandler(c web.C, w http.ResponseWriter, r *http.Request) {
 	note, ok := jsonData["note"]
 	if !ok {
 		BadRequest(w, r, "Could not find 'note' value in POSTed JSON.")
+		return
 	}
 	if err := datastore.SetNodeNote(uuid, note); err != nil {
 		BadRequest(w, r, err)
@@ -2006,6 +2009,7 @@ func postNodeLogHandler(c web.C, w http.ResponseWriter, r *http.Request) {
 	logdata, ok := jsonData["log"]
 	if !ok {
 		BadRequest(w, r, "Could not find 'log' value in POSTed JSON.")
+		return
 	}
 	if err := datastore.AddToNodeLog(uuid, logdata); err != nil {
 		BadRequest(w, r, err)
@@ -2240,6 +2244,7 @@ func repoTagHandler(c web.C, w http.ResponseWriter, r *http.Request) {
 	newuuid, err := datastore.NewVersion(uuid, jsonData.Note, branch, &uuidTag)
 	if err != nil {
 		BadRequest(w, r, err)
+		return
 	} else {
 		w.Header().Set("Content-Type", "application/json")
 		fmt.Fprintf(w, "{%q: %q}", "child", newuuid)
